@@ -61,10 +61,18 @@ def run_list(ctx, calc, strain, pairs, case_id, tag):
     return out_i, out_a, tl
 
 
-def in_dedup_window(tl):
-    """Does the run contain two distinct non-shear parameter sets that the scheduler's
-    approximate equality (numpy.allclose) merges although they are not identical?"""
-    ps = [t.task_params for t in tl._tasks if not t.key.is_shear]
+def in_dedup_window(params_seen):
+    """Did the run create two distinct non-shear parameter sets that the scheduler's approximate
+    equality (numpy.allclose) merges although they are not identical?  (Merged tasks no longer
+    appear in the task list, so this is decided on every parameter set the scheduler created.)"""
+    ps, seen = [], set()
+    for p_ in params_seen:
+        if p_.calc_type.name == "SHEAR":
+            continue
+        k_ = (p_.calc_type.name, numpy.asarray(p_.params, float).tobytes())
+        if k_ not in seen:
+            seen.add(k_)
+            ps.append(p_)
     for p, q in itertools.combinations(ps, 2):
         if p.calc_type != q.calc_type:
             continue
@@ -96,7 +104,7 @@ def run(ctx):
 
 
 def _run(ctx, current, mon):
-    nspec = ctx.pick(6, 96)
+    nspec = ctx.pick(8, 96)
     classes = ["constant", "varying", "equal", "pairwise-equal", "near-degenerate:1e-3", "near-degenerate:1e-4",
                "near-degenerate:1e-6", "near-degenerate:1e-8"]
     for isp in range(nspec):
@@ -112,13 +120,14 @@ def _run(ctx, current, mon):
         calc = W.make_calc(rng, spec, t, v)
         cls = classes[isp % len(classes)]
         strain = strain_field(rng, ntv, cls)
+        mon.params_seen = []
         base = run_list(ctx, calc, strain, ALL21, case_id, f"{cls}/all-21")
         ctx.evaluation(f"all-21|{cls}", (isp, "all"), sample={"strain_class": cls, "strain_row0": strain[0], "request": "all 21 keys",
                                                                 "grid": [len(t), ntv]})
         if base is None:
             continue
         canon_i, canon_a, tl = base
-        window = in_dedup_window(tl)
+        window = in_dedup_window(mon.params_seen)
         tol = WINDOW if window else STRICT
         ctx.count("runs_in_dedup_window" if window else "runs_outside_dedup_window")
         scale = max(numpy.abs(x).max() for x in canon_i.values()) + 1e-300
